@@ -308,6 +308,36 @@ def geom_check(ci):
     return Res(v, o=(cfg["kind"], cfg["sort"]), nt=order != sorted(order))
 
 
+# ------------------------------------------------------------------ results of earlier reads stay valid after later reads
+def hist_cases(tier, seed):
+    return list(range(len(configs(tier))))
+
+
+def hist_check(ci):
+    cfg, sr, full, sites, order, nc = _open_config(ci)
+    seen = {}
+    sels = [(slice(0, 2), 1), (slice(2, 4), 1), (slice(0, 2), 0), (1, slice(None)), (3, slice(None)), (slice(0, 2), slice(0, 2)), (slice(2, 4), slice(0, 2)),
+            (slice(None), -1), (slice(None), 2), (0, 1), (2, 1), (slice(1, 3), [0, 2]), (slice(0, 2), [0, 2])]
+    kept = []
+    for nsel, csel in sels:
+        got = sr[nsel, csel]
+        kept.append((nsel, csel, got, np.array(got, copy=True)))
+    for nsel, csel, got, copy0 in kept:
+        exp, _ = _expected(full, nsel, csel)
+        if not np.array_equal(np.asarray(got), copy0) or not refmodel.calib_close(np.asarray(got), exp):
+            seen.setdefault("result-altered-by-later-read", "the array returned by sr[%r, %r] changed after later reads on the same reader (%s)" % (nsel, csel, _cfgstr(cfg)))
+    # two readers on the same file do not influence each other
+    sr2 = spikeglx.Reader(sr.file_bin, sort=cfg["sort"])
+    try:
+        a = sr[0:3, :]
+        b = sr2[1:4, :]
+        if not refmodel.calib_close(np.asarray(a), full[0:3, :]) or not refmodel.calib_close(np.asarray(b), full[1:4, :]):
+            seen.setdefault("two-readers", "two readers on the same file return wrong data when used alternately (%s)" % _cfgstr(cfg))
+    finally:
+        sr2.close()
+    return Res(list(seen.items()), o=(cfg["kind"], cfg["suffix"]), tr=len(sels) + 2)
+
+
 # ------------------------------------------------------------------ every int16 value through every gain class
 def value_cases(tier, seed):
     out = []
@@ -387,6 +417,7 @@ CHECK = {
         Clause("selectors", "selector pairs on every configuration (thorough: the full product everywhere; quick: full x core and core x full "
                "on the primary configurations, core x core on the others)", cases=sel_cases, check=sel_check, setup=_setup),
         Clause("geometry", "column i is geometry entry i; order by shank,row,-col", cases=geom_cases, check=geom_check),
+        Clause("kept-results", "arrays returned by earlier reads stay valid after later reads", cases=hist_cases, check=hist_check),
         Clause("values", "all 65536 int16 values x every gain class x bin/cbin", cases=value_cases, check=value_check),
     ],
 }
